@@ -74,7 +74,8 @@ SPEC = {
                 "(C05_checker_sound). Tie: regenerated lock skeletons of mapdb.go/synced_map.go as proof obligations "
                 "(C05_skeleton_*), and stress + forced-schedule histories of the real packages (2..16 goroutines, shared views of "
                 "overlapping realms, atomic logical clock, Close in a quarter of them) decided by the Lean checker and, independently, by a Go checker; "
-                "watchdog for hangs; thorough tier under -race.",
+                "watchdog for hangs; scenario families: snapshot, flushkv/Close, read-only phase, torn values, batch Delete+Set, large store with "
+                "DeletePrefix/Clear of more than half (final-state oracle), Commit racing Close (failed-commit-wrote); thorough tier under -race.",
         "note": "Data-race freedom is proved for the model's lock discipline only; for the real code it is supported by the race "
                 "detector runs. Fixed finding (b5d5462): behind flushkv a mutation racing Close took effect and still answered "
                 "ErrStoreClosed (forced-schedule scenario, design/C05.md). Trusted: Lean kernel, the protocol model (tied by skeleton obligations + histories), RWMutex semantics.",
